@@ -103,17 +103,16 @@ func expandNamedUUID(column *ColumnSchema, value interface{}, namedUUIDs map[str
 		valType = column.TypeObj.Value.Type
 	}
 
-	if valType == TypeUUID {
-		if m, ok := value.(OvsMap); ok {
-			for k, v := range m.GoMap {
-				if newUUID, ok := expandNamedUUIDAtomic(keyType, k, namedUUIDs); ok {
-					m.GoMap[newUUID] = m.GoMap[k]
-					delete(m.GoMap, k)
-					k = newUUID
-				}
-				if newUUID, ok := expandNamedUUIDAtomic(valType, v, namedUUIDs); ok {
-					m.GoMap[k] = newUUID
-				}
+	if m, ok := value.(OvsMap); ok && (keyType == TypeUUID || valType == TypeUUID) {
+		// keys and values are expanded according to their own types
+		for k, v := range m.GoMap {
+			if newUUID, ok := expandNamedUUIDAtomic(keyType, k, namedUUIDs); ok {
+				m.GoMap[newUUID] = m.GoMap[k]
+				delete(m.GoMap, k)
+				k = newUUID
+			}
+			if newUUID, ok := expandNamedUUIDAtomic(valType, v, namedUUIDs); ok {
+				m.GoMap[k] = newUUID
 			}
 		}
 	} else if keyType == TypeUUID {
